@@ -94,6 +94,11 @@ func (l *ltBroadcast) buildPendBlock(pd *pendBlock) bool {
 		group, _ := tx.GetTxGroup()
 		// 交易组中的其他交易, 依次添加到区块交易列表中
 		for j, gtx := range group.GetTxs() {
+			// 轻区块声明的交易数量不足以容纳该交易组, 无法组装(来自对端的数据不可信, 不能越界)
+			if index+j >= len(pd.block.GetTxs()) {
+				buildSuccess = false
+				break
+			}
 			pd.block.GetTxs()[index+j] = gtx
 		}
 	}
